@@ -1,5 +1,7 @@
 import Sourmash.Spec.SigFormat
 import Sourmash.Lemmas.Json
+import Sourmash.Lemmas.JsonSort
+import Sourmash.Lemmas.JsonFilter
 /-! Property C06 — signatures survive save/load unchanged and stay format-compatible.
 Property theorems only; helper lemmas live in `Sourmash/Lemmas/Json*.lean`. -/
 namespace Sourmash.C06
@@ -131,6 +133,14 @@ theorem roundtrip_num_zeroed (m : MinHash) (hn : m.num < 2^32) (h : WFMinHash { 
     simp_all [repair]
   simp only [fromJsonSketch, toJsonSketch, fromJsonVec_written m hin h.mol, hrep]
 
+/-- non-vacuity: `KmerMinHash::new(scaled = 1000, …, num = 5)` -/
+example : ∃ m : MinHash, m.num = 5 ∧ m.num < 2^32 ∧ WFMinHash { m with num := 0 } ∧ m.maxHash ≠ 0 :=
+  ⟨{ num := 5, ksize := 21, seed := 42, maxHash := 18446744073709551, mins := [1, 2, 3], abunds := none, md5 := [],
+     mol := .dna }, rfl, by decide,
+   { num := by decide, ksize := by decide, seed := by decide, maxHash := by decide, mins := by decide,
+     abunds := (by intro a ha; cases ha), sorted := by decide, aligned := (by intro a ha; cases ha),
+     numOrScaled := fun _ => rfl, mol := trivial }, by decide⟩
+
 /-- a sketch with a `HashFunctions::Custom` hash function is written, but loading it back panics
     (`unimplemented!()`), unless its name lower-cases to one of the four standard names -/
 theorem roundtrip_custom_panics (m : MinHash) (s : Str) (hm : m.mol = .custom s) (h : InRange m)
@@ -139,5 +149,121 @@ theorem roundtrip_custom_panics (m : MinHash) (s : Str) (hm : m.mol = .custom s)
   have hv : vecOfTemp (tempOf m) = .error .panic := by
     simp [vecOfTemp, tempOf, hm, Mol.display, molOfString, hs.1, hs.2.1, hs.2.2.1, hs.2.2.2]
   simp only [fromJsonSketch, toJsonSketch, fromJsonVec, parseTemp_toJsonMH m h, hv]
+
+/-- non-vacuity: `Custom("my")` -/
+example : lower (str "my") ≠ K.protein ∧ lower (str "my") ≠ K.dayhoff ∧ lower (str "my") ≠ K.hp ∧
+    lower (str "my") ≠ K.dna := by decide
+
+/-! ### T-legacy — "files written by earlier releases (including ones with unsorted hashes) load to the hashes
+they list, sorted, with abundances kept aligned" -/
+
+/-- T-legacy, at the point where serde hands over (`TempSig`, so for *any* JSON object that parses: any key
+    order, extra keys, any letter case of `molecule`): for distinct hashes in any order with an abundance
+    list of the same length, the loaded sketch has exactly the listed hashes, strictly increasing, and each
+    abundance is still paired with the hash it was listed with; the other parameters are as listed -/
+theorem legacy_temp (t : Temp) (ab : List Nat) (mol : Mol) (hab : t.abunds = some ab)
+    (hmol : molOfString t.molecule = .ok mol) (hnd : t.mins.Nodup) (hlen : ab.length = t.mins.length) :
+    ∃ m ab', vecOfTemp t = .ok m ∧ m.abunds = some ab' ∧
+      m.mins = sortNats t.mins ∧ m.mins.Pairwise (· < ·) ∧ m.mins.Perm t.mins ∧
+      ab'.length = m.mins.length ∧ (m.mins.zip ab').Perm (t.mins.zip ab) ∧
+      (∀ h a, (h, a) ∈ m.mins.zip ab' ↔ (h, a) ∈ t.mins.zip ab) ∧
+      m.ksize = t.ksize ∧ m.seed = t.seed ∧ m.maxHash = t.maxHash ∧ m.md5 = t.md5 ∧ m.mol = mol := by
+  have hfst : (t.mins.zip ab).map (·.1) = t.mins := map_fst_zip' _ _ (by omega)
+  have hkeys : (sortPairs (t.mins.zip ab)).map (·.1) = sortNats t.mins := by
+    rw [map_fst_sortPairs _ (by rw [hfst]; exact hnd), hfst]
+  have hperm : ((sortPairs (t.mins.zip ab)).map (·.1)).zip ((sortPairs (t.mins.zip ab)).map (·.2)) |>.Perm (t.mins.zip ab) := by
+    rw [zip_map_fst_snd]; exact perm_isortBy lexLe _
+  refine ⟨{ num := if t.maxHash ≠ 0 then 0 else t.num, ksize := t.ksize, seed := t.seed, maxHash := t.maxHash,
+             md5 := t.md5, mol := mol, mins := (sortPairs (t.mins.zip ab)).map (·.1),
+             abunds := some ((sortPairs (t.mins.zip ab)).map (·.2)) },
+    (sortPairs (t.mins.zip ab)).map (·.2), by simp only [vecOfTemp, hmol, hab], rfl, hkeys, ?_, ?_, ?_,
+    hperm, fun h a => hperm.mem_iff, rfl, rfl, rfl, rfl, rfl⟩
+  · show ((sortPairs (t.mins.zip ab)).map (·.1)).Pairwise (· < ·)
+    rw [hkeys]; exact strict_sortNats hnd
+  · show ((sortPairs (t.mins.zip ab)).map (·.1)).Perm t.mins
+    rw [hkeys]; exact perm_sortNats _
+  · simp
+
+/-- T-legacy without abundances: the listed hashes, sorted (strictly when they are distinct) -/
+theorem legacy_temp_no_abundances (t : Temp) (mol : Mol) (hab : t.abunds = none)
+    (hmol : molOfString t.molecule = .ok mol) :
+    ∃ m, vecOfTemp t = .ok m ∧ m.abunds = none ∧ m.mins = sortNats t.mins ∧ m.mins.Pairwise (· ≤ ·) ∧
+      m.mins.Perm t.mins ∧ (t.mins.Nodup → m.mins.Pairwise (· < ·)) ∧
+      m.ksize = t.ksize ∧ m.seed = t.seed ∧ m.maxHash = t.maxHash ∧ m.md5 = t.md5 ∧ m.mol = mol :=
+  ⟨{ num := if t.maxHash ≠ 0 then 0 else t.num, ksize := t.ksize, seed := t.seed, maxHash := t.maxHash,
+     md5 := t.md5, mol := mol, mins := sortNats t.mins, abunds := none },
+    by simp only [vecOfTemp, hmol, hab], rfl, rfl, sorted_sortNats _, perm_sortNats _,
+    fun h => strict_sortNats h, rfl, rfl, rfl, rfl, rfl⟩
+
+/-- T-legacy at the JSON level: a sketch object listing any distinct in-range hashes in any order with aligned
+    abundances loads (through the untagged `Sketch` enum) as a vector-backed sketch with those hashes sorted
+    and every abundance still next to its hash -/
+theorem legacy_file (m : MinHash) (ab : List Nat) (hab : m.abunds = some ab) (hr : InRange m) (hm : standard m.mol)
+    (hnd : m.mins.Nodup) (hlen : ab.length = m.mins.length) :
+    ∃ m' ab', fromJsonSketch (toJsonSketch (.vec m)) = .ok (.vec m') ∧ m'.abunds = some ab' ∧
+      m'.mins.Pairwise (· < ·) ∧ m'.mins.Perm m.mins ∧ ab'.length = m'.mins.length ∧
+      (∀ h a, (h, a) ∈ m'.mins.zip ab' ↔ (h, a) ∈ m.mins.zip ab) ∧
+      m'.ksize = m.ksize ∧ m'.seed = m.seed ∧ m'.maxHash = m.maxHash ∧ m'.md5 = m.md5 ∧ m'.mol = m.mol := by
+  obtain ⟨m', ab', h1, h2, _, h4, h5, h6, _, h8, h9⟩ :=
+    legacy_temp (tempOf m) ab m.mol hab (molOfString_display hm) hnd hlen
+  refine ⟨m', ab', ?_, h2, h4, h5, h6, h8, h9⟩
+  simp only [fromJsonSketch, toJsonSketch, fromJsonVec, parseTemp_toJsonMH m hr, h1]
+
+/-- non-vacuity of `legacy_file`: an unsorted in-range state -/
+example : ∃ m : MinHash, m.abunds = some [7, 8, 6] ∧ InRange m ∧ standard m.mol ∧ m.mins.Nodup ∧
+    [7, 8, 6].length = m.mins.length ∧ ¬ m.mins.Pairwise (· < ·) :=
+  ⟨{ num := 0, ksize := 21, seed := 42, maxHash := 0, mins := [9, 2, 5], abunds := some [7, 8, 6], md5 := [], mol := .hp },
+   rfl, { num := by decide, ksize := by decide, seed := by decide, maxHash := by decide, mins := by decide,
+          abunds := (by intro a ha; cases ha; decide) }, trivial, by decide, rfl, by decide⟩
+
+/-- non-vacuity and a worked instance: hashes 9,2,5 with abundances 7,8,6 load as 2,5,9 with 8,6,7 -/
+example : vecOfTemp { num := 0, ksize := 21, seed := 42, maxHash := 0, md5 := [], mins := [9, 2, 5],
+                      abunds := some [7, 8, 6], molecule := str "DNA" } =
+    .ok { num := 0, ksize := 21, seed := 42, maxHash := 0, md5 := [], mins := [2, 5, 9], abunds := some [8, 6, 7],
+          mol := .dna } := rfl
+
+/-! ### T-filter — "loading with a ksize or molecule-type filter returns exactly the matching sketches, one per
+returned signature" -/
+
+/-- T-filter: `load_signatures` (flatten to one sketch per signature, then filter; the code) returns what the
+    specification says (for every signature in order, for every matching sketch in order, that signature
+    holding just that sketch), for every `ksize`/`moltype` filter and every list of loaded signatures without
+    HyperLogLog sketches (for which the code is `unimplemented!()`) -/
+theorem filter_exact (k : Option Nat) (m : Option Mol) (sigs : List Signature) (h : hasHll sigs = false) :
+    filterAll k m (flatten sigs) = .ok (filterSpec k m sigs) :=
+  filterAll_flatten k m sigs (by rw [← hasHll_eq]; exact h)
+
+/-- … one sketch per returned signature, and it matches the filter … -/
+theorem filter_one_per_signature (k : Option Nat) (m : Option Mol) (sigs : List Signature) :
+    ∀ s ∈ filterSpec k m sigs, ∃ s₀ ∈ sigs, ∃ sk ∈ s₀.sketches, sketchOk k m sk = true ∧ s = { s₀ with sketches := [sk] } := by
+  intro s hs
+  simp only [filterSpec, List.mem_flatMap, List.mem_map, List.mem_filter] at hs
+  obtain ⟨s₀, hs₀, sk, ⟨hsk, hok⟩, rfl⟩ := hs
+  exact ⟨s₀, hs₀, sk, hsk, hok, rfl⟩
+
+/-- … exactly the matching sketches, order preserved -/
+theorem filter_exactly_matching (k : Option Nat) (m : Option Mol) (sigs : List Signature) :
+    (filterSpec k m sigs).flatMap (·.sketches) = (sigs.flatMap (·.sketches)).filter (sketchOk k m) := by
+  induction sigs with
+  | nil => rfl
+  | cons s t ih =>
+    simp only [filterSpec, List.flatMap_cons, List.flatMap_append, List.filter_append] at ih ⊢
+    rw [ih]
+    congr 1
+    induction s.sketches.filter (sketchOk k m) with
+    | nil => rfl
+    | cons a l ih2 => simp [ih2]
+
+/-- the whole path: saving well-formed signatures and loading them with a filter -/
+theorem filter_saved (k : Option Nat) (m : Option Mol) (sigs : List Signature) (hwf : ∀ s ∈ sigs, WFSignature s)
+    (h : hasHll sigs = false) :
+    loadSignatures k m (toJson sigs) = .ok (filterSpec k m (sigs.map Signature.normalise)) := by
+  have hn : hasHll (sigs.map Signature.normalise) = false := by
+    rw [hasHll_eq, any_isHll_normalise, ← hasHll_eq]; exact h
+  simp only [loadSignatures, roundtrip sigs hwf, filter_exact k m _ hn]
+
+/-- non-vacuity: a list without HyperLogLog sketches; the filter keeps and drops -/
+example : hasHll [{ sampleSig with sketches := sampleSig.sketches.take 2 }] = false := by decide
+example : (filterSpec (some 31) none [{ sampleSig with sketches := sampleSig.sketches.take 2 }]).length = 1 := by decide
 
 end Sourmash.C06
